@@ -364,7 +364,7 @@ func c03Pair(rng *mon.Rand, n1, n2, density int) ([]float64, []float64) {
 }
 
 func c03Run(r *mon.Run) {
-	r.Rule("sample pairs of sizes 0..400 on both sides of every exact/approximate switch-over (limit, limit+1 in either sample), tie densities none/low/high/all-equal/one-sample-constant, under the limit configurations default (50,25), (0,0), (5,3), (60,30); per pair 3 alternatives plus permuted, monotonically mapped and swapped calls; also the exhaustive N<=7 (tie vector x allocation) set under limits (0,0). Non-trivial = hits a (configuration x method) cell or an error/extreme class; distinct by hash of (x1,x2,limits).")
+	r.Rule("sample pairs of sizes 0..400 on both sides of every exact/approximate switch-over (limit, limit+1 in either sample), tie densities none/low/high/all-equal/one-sample-constant, under the limit configurations default (50,25), (0,0), (5,3), (64,34); per pair 3 alternatives plus permuted, monotonically mapped and swapped calls; also the exhaustive N<=7 (tie vector x allocation) set under limits (0,0). Non-trivial = hits a (configuration x method) cell or an error/extreme class; distinct by hash of (x1,x2,limits).")
 	r.Assume("expected method decided by the oracle from (ties, n1, n2, current limits); exact reference as in C01; normal approximation evaluated with math.Erfc and, on a 2% sample, with the 384-bit Phi", "the two public limit variables are changed only between parallel sections and restored at the end (asserted)")
 	if err := ref.USelfTest(r.Pick(7, 8)); err != nil {
 		r.Inconclusive("reference self-test failed: " + err.Error())
@@ -372,7 +372,7 @@ func c03Run(r *mon.Run) {
 	}
 	defU, defT := stats.MannWhitneyExactLimit, stats.MannWhitneyTiesExactLimit
 	type cfg struct{ u, t int }
-	cfgs := []cfg{{defU, defT}, {0, 0}, {5, 3}, {60, 30}}
+	cfgs := []cfg{{defU, defT}, {0, 0}, {5, 3}, {64, 34}}
 	for _, g := range cfgs {
 		name := fmt.Sprintf("limits(%d,%d)", g.u, g.t)
 		if g.u > 0 {
